@@ -248,6 +248,9 @@ func (this *BtcTxParam) Deserialization(source *common.ZeroCopySource) error {
 	if eof {
 		return fmt.Errorf("BtcFeeRateParam deserialize length of signature array error")
 	}
+	if l > source.Len() {
+		return fmt.Errorf("BtcFeeRateParam deserialize length of signature array %d exceeds the remaining data", l)
+	}
 	sigs := make([][]byte, l)
 	for i := uint64(0); i < l; i++ {
 		sigs[i], eof = source.NextVarBytes()
